@@ -52,7 +52,11 @@ func (f *fetcher) handleUpstream304(req *http.Request, key cache.CacheKey) (cach
 	}
 
 	slog.Debug("Successfully revalidated cache metadata", "url", req.URL, "key", key)
-	return f.cache.Get(key)
+	cached, err = f.cache.Get(key)
+	if err != nil {
+		return nil, fmt.Errorf("%w: %v", ErrCacheGetFailed, err)
+	}
+	return cached, nil
 }
 
 func (f *fetcher) handleUpstream200(req *http.Request, resp *http.Response, key cache.CacheKey, upstreamHd *headers.HeaderDirectives) (cached *cache.Entry[cachedRequestInfo], err error) {
@@ -165,6 +169,11 @@ func (f *fetcher) fetchUpstream(req *http.Request, key cache.CacheKey, clientHd 
 	if err != nil {
 		resp.Body.Close()
 		slog.Error("Error handling upstream response after cache miss", "url", req.URL, "error", err)
+		if errors.Is(err, ErrCacheResponseFailed) || errors.Is(err, ErrUpdateCacheMetadata) || errors.Is(err, ErrCacheGetFailed) {
+			// The origin answered; only our cache failed (full, entry evicted, write error, empty body...).
+			// Report the response as not cacheable so that callers fall back to a direct fetch.
+			return fetchResult{}, fmt.Errorf("%w: %v", ErrNotCacheable, err)
+		}
 		return fetchResult{}, err
 	}
 
@@ -299,7 +308,12 @@ func (f *fetcher) dedupFetch(req *http.Request, key cache.CacheKey, clientHd *he
 		slog.Debug("Request can't be coalesced, fetching upstream...")
 		metrics.Global.Requests.NonCoalescedRequests.Increment()
 
-		return f.fetchUpstream(req, key, clientHd)
+		fetched, err = f.fetchUpstream(req, key, clientHd)
+		if errors.Is(err, ErrNotCacheable) {
+			slog.Debug("Response could not be cached, falling back to direct fetch", "url", req.URL)
+			return f.fetchDirectlyFromUpstream(req)
+		}
+		return fetched, err
 	}
 
 	originalClientHd := *clientHd // Copy the original client headers so the shared requests don't get a modified version
